@@ -11,6 +11,7 @@ from props.calls import enc_all, dec_all, pretty, INT_MAX, ATOM_MAX
 
 PID = 'C06'
 HARNESS = 'h_c06'
+HARNESS_EXTRA = ('rec.h', 'reuse.h')
 MODEL_MODULE = 'V.C06.Model'
 READY = True
 RULE = ('cases = call sequences init; (begin; directives; end) x 1..3 with degenerate-heavy directives (empty head x {disjunctive, choice}, '
@@ -664,9 +665,26 @@ def nontrivial(case, obs):
     return bool(obs) and obs[0] == 0 and obs[1] > 0
 
 
+def case_hash(c):
+    h = 1469598103934665603
+    for x in c:
+        h = ((h ^ (x & 0xFFFFFFFFFFFFFFFF)) * 1099511628211) & 0xFFFFFFFFFFFFFFFF
+    return h
+
+
+def primed(c):
+    """harness/h_c06.cpp: every other case starting with initProgram is rendered by a writer OBJECT that has rendered another program
+    before (writer reuse; bit 18 of the hash: that earlier program ended in an abandoned step). Invisible for a correct writer."""
+    return bool(c) and c[0] == 1 and bool((case_hash(c) >> 17) & 1)
+
+
 def describe(case):
     calls, rest = dec_all(case)
-    return pretty(calls) + ((' + undecoded %r' % rest) if rest else '')
+    w = ''
+    if primed(case):
+        w = 'writer=reused(after rendering a %s program with names, #show and theory atoms) ' % (
+            'two-step incremental, second step abandoned,' if (case_hash(case) >> 18) & 1 else 'one-step')
+    return w + pretty(calls) + ((' + undecoded %r' % rest) if rest else '')
 
 
 # ------------------------------------------------------------------------------------------------
